@@ -26,7 +26,7 @@ struct Ctl {
     size_t outstanding() const { return L ? L->outstanding() : W->live.size(); }
     uint64_t bad_free() const { return L ? L->bad_free : W->bad_free; }
     void clear_events() { if (L) { L->bad_free = 0; L->bad_free_note.clear(); } else W->bad_free = 0; }
-    void drop_all() { if (L) L->release_all(); else W->live.clear(); }
+    void drop_all() { if (L) L->release_all(); else W->clear_live(); }
     UriMemoryManager* mm() const { return L ? L->mgr() : nullptr; }
 };
 
@@ -145,7 +145,7 @@ template <class X> struct Runner {
     void run(Ctx& ctx, const Plan& p) {
         c = &ctx;
         Ledger led; LibcWatch& lw = libc_watch();
-        if (p.dflt) { if (!lw.available) return; lw.reset(); lw.live.clear(); }
+        if (p.dflt) { if (!lw.available) return; lw.reset(); lw.clear_live(); }
         Ctl ctl{p.dflt ? nullptr : &led, p.dflt ? &lw : nullptr};
         uint64_t N = 0;
         if (!exec(p, ctl, 0, false, &N)) { ctx.count("skipped_setup"); return; }
@@ -157,7 +157,7 @@ template <class X> struct Runner {
             exec(p, ctl, (long)k, from != 0, &dummy);
             ctx.count(fmt("k_%s", k <= 12 ? std::to_string(k).c_str() : "13+"));
         }
-        if (p.dflt) { lw.reset(); lw.live.clear(); }
+        if (p.dflt) { lw.reset(); lw.clear_live(); }
     }
 };
 
